@@ -82,12 +82,12 @@ REQUIRED_PROBES = {
     "C16": ["nary_pattern_evaluated", "axle_constructed"],
     "C17": ["last_handle_dropped"],
     "C15": ["set_rejected", "set_rejected_while_following", "set_time_after_clock_moved", "update_while_following", "adapter_get", "motion_profile_adapter_get"],
-    "C02": ["two_different_errors", "nary_leading_absent", "equivalence_checked"],
+    "C02": ["two_different_errors", "nary_leading_absent", "equivalence_checked", "noncommutative_payload_combined"],
     "C08": ["both_sides_present", "one_sided", "axle_partial_presence", "diff_equal_all_present", "diff_waits_for_data",
             "teeth_ratio_observed"],
-    "C09": ["reconnect_same_pair", "connect_steals_both", "connect_steals_one", "disconnect_unlinked"],
+    "C09": ["reconnect_same_pair", "connect_steals_both", "connect_steals_one", "disconnect_unlinked", "link_op_refused_by_live_borrow"],
     "C13": ["relay_competing_commands", "newest_not_at_side1", "relayed_two_hops"],
-    "C20": ["actuator_sees_nothing", "pid_wrapper_fed", "pid_wrapper_drives_motor"],
+    "C20": ["actuator_sees_nothing", "pid_wrapper_fed", "pid_wrapper_drives_motor", "inner_writes_terminal_from_update"],
     "C04": ["time_shift_twin", "scaling_twin", "present_after_reset", "recovery_checked", "composed_twin"],
     "C05": ["err_then_2_present", "present_after_reset", "absent_deletion_twin", "recovery_checked"],
     "C10": ["time_shift_twin", "misdim_panic", "err_then_2_present", "composed_twin"],
@@ -257,7 +257,7 @@ def replay_reproduces(path):
     return r.returncode == 1, r.stdout
 
 
-def sim_collect(prop, tier, seed, binary=None, tag=""):
+def sim_collect(prop, tier, seed, binary=None, tag="", nruns=None, note=None):
     """Run one simulator batch; replay every minimised failure in a fresh process; classify."""
     binary = binary or BIN
     tmpdir = os.path.join(REPLAYS, "tmp", "%s%s-%d" % (prop, tag, os.getpid()))
@@ -269,6 +269,8 @@ def sim_collect(prop, tier, seed, binary=None, tag=""):
     runs = os.environ.get("VERIF_RUNS")
     if runs:
         cmd += ["--runs", runs]
+    elif nruns:
+        cmd += ["--runs", str(nruns)]
     r = run(cmd)
     if r.returncode < 0 or r.returncode in (134, 139):
         # the process was killed (abort / segfault): a run corrupted memory. Bisect by run index.
@@ -296,11 +298,14 @@ def sim_collect(prop, tier, seed, binary=None, tag=""):
         os.makedirs(dest_dir, exist_ok=True)
         dest = os.path.join(dest_dir, tag.strip("-") + os.path.basename(f["replay"]))
         shutil.copyfile(f["replay"], dest)
+        if note:
+            body = open(dest).read()
+            open(dest, "w").write("# %s\n" % note + body)
         lines.append("VIOLATION property=%s replay=%s" % (prop, dest))
         lines.append("  signature=%s detail=%s (run %d, %d ops minimised to %d)" % (
             f["signature"], f["detail"], f["run"], f["ops_original"], f["ops_minimised"]))
     missing = [p for p in REQUIRED_PROBES.get(prop, []) if res["reach_probes"].get(p, 0) == 0]
-    if not runs:
+    if not runs and not nruns:
         for space, total in REQUIRED_CELLS.get(prop, {}).items():
             got = res.get("cells_by_space", {}).get(space, 0)
             if got != total:
@@ -385,9 +390,30 @@ def sim_batch(prop, tier, seed, world):
     t0 = time.time()
     build_main()
     c = sim_collect(prop, tier, seed)
+    lines = list(c["lines"])
+    violations = c["violations"]
+    known_hits = list(c["known_hits"])
+    # the same batch through the simulator linked against rrtk as `cargo build --release` ships it by
+    # default (default features, optimised, no debug assertions, no overflow or dimension checks):
+    # code that only exists, or only disappears, in that configuration (a side effect inside a
+    # debug_assert!, an assertion that only fires where checks are off) shows under the same oracles
+    extra = None
+    vbin = variant_binary(SHIPPED)
+    if vbin and not os.environ.get("VERIF_NO_SHIPPED"):
+        n = None if tier == "quick" else max(int(c["res"]["runs"]) // 4, 1)
+        c2 = sim_collect(prop, tier, seed, binary=vbin, tag="-shipped", nruns=n,
+                         note="found by the simulator built against rrtk's shipped configuration: replay with "
+                              "/verif/target/variants/%s/release/rrtk-sim-%s replay <this file>" % (SHIPPED, SHIPPED))
+        lines += c2["lines"]
+        violations += c2["violations"]
+        known_hits += [k for k in c2["known_hits"] if k not in known_hits]
+        extra = {"shipped_configuration_pass": {
+            "build": "variants/%s (default features, release profile, rrtk compiled without debug assertions)" % SHIPPED,
+            "evaluations": c2["res"]["runs"], "distinct_nontrivial": c2["res"]["distinct_nontrivial"],
+            "failing_runs": c2["res"]["failing_runs"], "trace_digest": c2["res"]["trace_xor"] + c2["res"]["trace_sum"]}}
     wall = time.time() - t0
-    write_evidence(prop, tier, seed, world, c["res"], c["violations"], c["known_hits"], wall)
-    finish(prop, tier, seed, c["lines"], c["violations"], len(c["known_hits"]), c["res"]["runs"],
+    write_evidence(prop, tier, seed, world, c["res"], violations, known_hits, wall, extra)
+    finish(prop, tier, seed, lines, violations, len(known_hits), c["res"]["runs"],
            c["res"]["distinct_nontrivial"], wall, c["missing"])
 
 
@@ -937,6 +963,9 @@ def check_c19(tier, seed, only_run=None, only_mode=None, only_build=None):
     }
     json.dump(ev, open(os.path.join(EVID, prop + ".json"), "w"), indent=1)
     finish(prop, tier, seed, lines, violations, 0, compared, len(distinct), wall, [])
+
+
+SHIPPED = "stdrelease_nodim"
 
 
 def variant_binary(name):
